@@ -24,7 +24,7 @@ var (
 	fReplayDir = flag.String("sim.replaydir", "", "where replay files go")
 	fReplay    = flag.String("sim.replay", "", "replay file to execute")
 	fTrace     = flag.Bool("sim.trace", false, "print the trace when replaying")
-	fDigests   = flag.Bool("sim.digests", false, "record per-run digests (determinism self-test)")
+	fDigestN   = flag.Int("sim.digestn", 0, "record digests of the first N runs of this shard (determinism self-test)")
 	fShrink    = flag.Int("sim.shrink", 300, "re-execution budget for minimisation")
 )
 
@@ -41,20 +41,21 @@ type WorkerViolation struct {
 
 // WorkerResult is what a worker process reports to the runner.
 type WorkerResult struct {
-	Prop       string            `json:"prop"`
-	Tier       string            `json:"tier"`
-	Seed       uint64            `json:"seed"`
-	Shard      int               `json:"shard"`
-	Runs       int               `json:"runs"`
-	Nontrivial int               `json:"nontrivial"`
-	States     []string          `json:"states"`   // hashes of distinct non-trivial end states
-	Violations []WorkerViolation `json:"violations"`
-	SigCounts  map[string]int    `json:"sig_counts"`
-	Stats      *Stats            `json:"stats"`
-	Samples    []interface{}     `json:"samples"`
-	Digests    map[string]string `json:"digests,omitempty"`
-	WallS      float64           `json:"wall_s"`
-	Extra      map[string]int    `json:"extra,omitempty"`
+	Prop          string            `json:"prop"`
+	Tier          string            `json:"tier"`
+	Seed          uint64            `json:"seed"`
+	Shard         int               `json:"shard"`
+	Runs          int               `json:"runs"`
+	Nontrivial    int               `json:"nontrivial"`
+	States        []string          `json:"states"` // hashes of distinct non-trivial end states
+	Violations    []WorkerViolation `json:"violations"`
+	SigCounts     map[string]int    `json:"sig_counts"`
+	Stats         *Stats            `json:"stats"`
+	Samples       []interface{}     `json:"samples"`
+	Digests       map[string]string `json:"digests,omitempty"`
+	WallS         float64           `json:"wall_s"`
+	Extra         map[string]int    `json:"extra,omitempty"`
+	RequiredReach []string          `json:"required_reach,omitempty"`
 }
 
 func mixSeed(seed uint64, j int) uint64 {
@@ -94,9 +95,10 @@ func TestSim(t *testing.T) {
 	}
 	start := time.Now()
 	res := &WorkerResult{Prop: p.ID, Tier: *fTier, Seed: *fSeed, Shard: *fShard, Stats: newStats(), SigCounts: map[string]int{}, Extra: map[string]int{}}
-	if *fDigests {
+	if *fDigestN > 0 {
 		res.Digests = map[string]string{}
 	}
+	res.RequiredReach = p.RequiredReach
 	states := map[string]bool{}
 	minimised := map[string]bool{}
 	for j := *fShard; j < *fRuns; j += *fNShards {
@@ -108,7 +110,7 @@ func TestSim(t *testing.T) {
 			res.Nontrivial++
 			states[shortHash(rr.EndState)] = true
 		}
-		if res.Digests != nil {
+		if res.Digests != nil && len(res.Digests) < *fDigestN {
 			res.Digests[fmt.Sprint(rs)] = rr.Digest
 		}
 		if len(res.Samples) < 2 {
@@ -122,6 +124,9 @@ func TestSim(t *testing.T) {
 			}
 			minimised[sig] = true
 			plan := rr.Plan
+			if gd := os.Getenv("GODEBUG"); gd != "" {
+				plan.Env = map[string]string{"GODEBUG": gd}
+			}
 			plan.Expect = sig
 			plan.Detail = v.Detail
 			exec := func(pl Plan) *RunResult { return p.replay(t, pl, false) }
